@@ -132,6 +132,23 @@ func runC10(w *World, tier string, mode string) (bool, interface{}) {
 			if bytes.Equal(x.Data, m.Data) {
 				return
 			}
+			// the same claim spelled in ways JSON decoders treat differently: S keeps
+			// its own id under the exact key and names P under a second key that
+			// differs in case (or is simply repeated) - the last one wins when the
+			// request is decoded - or uses a differently-cased key only
+			if i := bytes.LastIndexByte(m.Data, '}'); i > 0 {
+				switch w.Tape.Choose(5, "idKeySpelling") {
+				case 1:
+					x.Data = append(append(append([]byte(nil), m.Data[:i]...), []byte(fmt.Sprintf(`,"%s":%d`, []string{"participantid", "PARTICIPANTID", "participantId", "Participantid"}[w.Tape.Choose(4, "case")], p))...), m.Data[i:]...)
+					w.Stats.Fault("impersonation-by-second-id-key")
+				case 2:
+					x.Data = append(append(append([]byte(nil), m.Data[:i]...), []byte(fmt.Sprintf(`,"ParticipantId":%d`, p))...), m.Data[i:]...)
+					w.Stats.Fault("impersonation-by-second-id-key")
+				case 3:
+					x.Data = pidRe.ReplaceAll(m.Data, []byte(fmt.Sprintf(`"participantid":%d`, p)))
+					w.Stats.Fault("impersonation-by-recased-id-key")
+				}
+			}
 			x.Signature = ed25519.Sign(w.Nodes[by].Priv, x.Bytes()) // correctly signed by S itself
 			if w.Tape.Bool(1, 4, "copiedSignature") {
 				// ... or S has no key of P either, but every node has already verified
@@ -181,12 +198,15 @@ func runC10(w *World, tier string, mode string) (bool, interface{}) {
 				// outside; the file inside names the live round (or the unused id as well)
 				id := freshRoundID(w, uint64(len(w.Board.Msgs))+5)
 				parts, thr := reinitParticipants(w, m.DkgRoundID)
-				inner := id
-				if w.Tape.Bool(1, 2, "payloadNamesLiveRound") {
+				inner, outer := id, id
+				switch w.Tape.Choose(3, "envelopeShape") {
+				case 1:
 					inner = m.DkgRoundID
+				case 2:
+					outer = m.DkgRoundID
 				}
 				env := reinitEnvelope(w, by, inner, thr, parts, []storage.Message{x})
-				env.DkgRoundID = id
+				env.DkgRoundID = outer
 				env.Signature = ed25519.Sign(w.Nodes[by].Priv, env.Bytes())
 				wrapped[id] = true
 				w.Stats.Fault("impersonation-inside-reinit-envelope")
